@@ -194,6 +194,26 @@ func opPP(r *rand.Rand, n int, tier string) {
 					d[k] = cp
 				}
 			}
+			if r.Intn(3) == 0 {
+				// two consecutive frames with the same base file name and line in different packages and directories,
+				// the second one carrying the longest package name / path of the output
+				k := r.Intn(len(d))
+				if j := r.Intn(len(d[k].Frames) + 1); j < len(d[k].Frames) && strings.HasSuffix(d[k].Frames[j].File, ".go") && !strings.Contains(d[k].Frames[j].File, " ") {
+					f := d[k].Frames[j]
+					base := f.File
+					if p := strings.LastIndexByte(base, '/'); p >= 0 {
+						base = base[p+1:]
+					}
+					twin := dFrame{Sym: dSym{Pkg: "example.com/billing/transactionsledgerreconciliation", Name: "Apply"},
+						File: "/home/u/go/src/example.com/billing/transactionsledgerreconciliation/" + base, Line: f.Line, Off: f.Off}
+					fr := append([]dFrame{}, d[k].Frames[:j+1]...)
+					fr = append(fr, twin)
+					d[k].Frames = append(fr, d[k].Frames[j+1:]...)
+					if d[k].ElideAfter >= j {
+						d[k].ElideAfter++
+					}
+				}
+			}
 			txt = printDump(d, dVariant{FileIndent: "\t"}, true)
 			ngor = fmt.Sprint(len(d))
 			for _, x := range d {
